@@ -24,9 +24,9 @@ import (
 func init() {
 	core.Register(&core.Prop{
 		ID: "C15", Level: "exploration",
-		Rule: "cases are (dictionary configuration, message type, population, validator settings, defect): conforming messages for every message type of every shipped dictionary with seed-chosen optional fields/components/groups, validated under all 32 settings combinations, then every defect kind (missing required field, missing required group member, unknown field, user-defined unknown field, field of another message, empty value, bad format, enum violation, unknown message type, duplicate, header/body order, group count, group member order) at seed-chosen eligible positions; non-trivial = message with a group or component; distinct by (dictionary, msgtype, defect kind, settings class)",
+		Rule:        "cases are (dictionary configuration, message type, population, validator settings, defect): conforming messages for every message type of every shipped dictionary with seed-chosen optional fields/components/groups, validated under all 32 settings combinations, then every defect kind (missing required field, missing required group member, unknown field, user-defined unknown field, field of another message, empty value, bad format, enum violation, unknown message type, duplicate, header/body order, group count, group member order) at seed-chosen eligible positions; non-trivial = message with a group or component; distinct by (dictionary, msgtype, defect kind, settings class)",
 		Assumptions: []string{"group entries always carry their first member", "mutants are built so that exactly one defect kind is present", "a check relaxed by the active settings is not demanded (tier B), only the identification of a rejection that still happens (tier C)"},
-		FloorQuick: 200, FloorThorough: 2000,
+		FloorQuick:  200, FloorThorough: 2000,
 		Parts: []core.Part{{Name: "validate", Run: run, Replay: replay}},
 	})
 }
